@@ -15,6 +15,10 @@
 (*   sent  orders recorded in flight in the engine state BEFORE this event    *)
 (*   nc,na number of dataset items / account events the engine state has seen *)
 (*         AFTER this event                                                   *)
+(*   tsk   (trade / balance) the dataset item at whose exchange time the      *)
+(*         event's timestamp lies (within the slack; 0: at none) ; ck: the    *)
+(*         scenario makes that timestamp schedule-independent (gated source / *)
+(*         paused clock over datasets spaced an hour apart), so it is judged  *)
 (*   n, recs, acts   (Reset) the run's parameters ; sumok (End) the returned  *)
 (*         summary equals the summary of the run's own final engine state     *)
 (*                                                                            *)
@@ -81,9 +85,17 @@ MarketFails(r, post, e) ==
   \cup (IF e.sent = r.sent THEN {} ELSE {"orders-in-flight"})
   \cup (IF e.tag = cur THEN {} ELSE {"foreign-stream"})
 
+\* the timestamp of a fill / balance snapshot is the reading of THIS run's clock when the order
+\* was sent (e.tsk: the dataset item whose exchange time the stamp lies at, within the slack)
+ClockFails(r, e) ==
+    IF e.ck /\ e.kind \in {"trade", "balance"}
+       /\ ~(\E j \in 1..Len(r.sent) : r.sent[j] = e.k /\ r.stamps[j] = e.tsk)
+    THEN {"foreign-clock"} ELSE {}
+
 AcctFails(r, post, e) ==
        (IF AcctCan(r, Acct(e.k, e.kind)) THEN Counts(post, e) \cup InvFails(post) ELSE {"unexpected-account-event"})
   \cup (IF e.sent = r.sent THEN {} ELSE {"orders-in-flight"})
+  \cup ClockFails(r, e)
 
 EndFails(r, post, e) ==
        (IF EndCan(r) THEN Counts(post, e) \cup InvFails(post) ELSE {"shutdown-before-dataset-consumed"})
